@@ -1,10 +1,12 @@
 package main
 
 import (
+	"fmt"
 	"go/constant"
 	"go/token"
 	"go/types"
 	"math"
+	"os"
 	"sort"
 	"strings"
 
@@ -106,6 +108,7 @@ type FB struct {
 	canonMap     map[canonKey]ssa.Value
 	nnPhis       map[*ssa.Phi]bool
 	nnDone       bool
+	joinBusy     bool
 	storedFields map[*types.Var]bool
 	ptrBits      int
 }
@@ -1186,7 +1189,74 @@ func (fb *FB) blockFacts(b *ssa.BasicBlock) []Lin {
 			}
 		}
 	}
+	// value sets at joins: `if x != 4 && x != 8 { return err }` continues with x in {4, 8}; each way into the join pins x to
+	// a constant, the join knows the hull
+	if !fb.joinBusy {
+		fb.joinBusy = true
+		for _, j := range fb.fn.Blocks {
+			if len(j.Preds) >= 2 && len(j.Preds) <= 6 && j.Dominates(b) {
+				out = append(out, fb.joinRangeFacts(j)...)
+			}
+		}
+		fb.joinBusy = false
+	}
 	fb.factMemo[b] = out
+	return out
+}
+
+// joinRangeFacts: for a join block whose every incoming edge fixes the same symbol to a constant, lo <= symbol <= hi.
+func (fb *FB) joinRangeFacts(j *ssa.BasicBlock) []Lin {
+	type rngc struct{ lo, hi int64 }
+	var common map[interface{}]rngc
+	for _, p := range j.Preds {
+		if j.Dominates(p) {
+			return nil // back edge: a loop header, not a value-set join
+		}
+		consts := map[interface{}]rngc{}
+		ef := fb.edgeFacts(p, j)
+		// x - c >= 0 and c - x >= 0 both present
+		for _, f := range ef {
+			if len(f.T) != 1 {
+				continue
+			}
+			for k, coef := range f.T {
+				if coef != 1 {
+					continue
+				}
+				c := -f.C // x - c >= 0
+				for _, g := range ef {
+					if len(g.T) == 1 && g.T[k] == -1 && g.C == c {
+						consts[k] = rngc{c, c}
+					}
+				}
+			}
+		}
+		if common == nil {
+			common = consts
+		} else {
+			next := map[interface{}]rngc{}
+			for k, a := range common {
+				if b, ok := consts[k]; ok {
+					lo, hi := a.lo, a.hi
+					if b.lo < lo {
+						lo = b.lo
+					}
+					if b.hi > hi {
+						hi = b.hi
+					}
+					next[k] = rngc{lo, hi}
+				}
+			}
+			common = next
+		}
+		if len(common) == 0 {
+			return nil
+		}
+	}
+	var out []Lin
+	for k, r := range common {
+		out = append(out, linSym(k).add(linConst(r.lo), -1), linConst(r.hi).add(linSym(k), -1))
+	}
 	return out
 }
 
@@ -1697,6 +1767,13 @@ func (fb *FB) proveViaCallers(t Lin, facts []Lin, depth int) bool {
 			}
 		}
 		if !cfb.prove(ti, cfacts, 3) && !cfb.proveViaCallers(ti, cfacts, depth-1) {
+			if os.Getenv("H5SA_DEBUG_CALLERS") != "" {
+				fmt.Fprintf(os.Stderr, "proveViaCallers(%s): goal %s fails at %s in %s; facts:", fn.Name(), cfb.linString(ti), fb.c.InstrPos(site.(ssa.Instruction)), caller.Name())
+				for _, f := range cfacts {
+					fmt.Fprintf(os.Stderr, " [%s>=0]", cfb.linString(f))
+				}
+				fmt.Fprintln(os.Stderr)
+			}
 			return false
 		}
 		n++
